@@ -173,5 +173,3 @@ func printResult(res *RunResult, wall time.Duration, verbose bool) {
 		fmt.Println("funcs:", fs)
 	}
 }
-
-func checkMain(args []string) int { return 2 }
